@@ -68,6 +68,12 @@ func catalogHook(names []string) sm.Hook {
 		if op.Q != nil && op.Kind != "createbyquery" {
 			target = op.Q.Coll
 		}
+		if op.Kind == "dropindex" || op.Kind == "dropcoll" {
+			// a drop must remove exactly its own keys: nothing of a neighbour, nothing left behind
+			if msg := run.Audit(s.H.Raw, s.M); msg != "" {
+				return &sm.Fail{Property: "C13", Clause: "isolation", Detail: "raw keys after " + op.String() + ": " + msg}
+			}
+		}
 		for _, n := range s.M.CollNames() {
 			clause := "isolation"
 			if n == target {
